@@ -25,6 +25,7 @@ CLAIM_ID_LOWER = 'isoaddressclaim'
 
 
 class DumpFile:
+    ALWAYS_TRUE = True        # a Python object of this kind is truthy (no __bool__ / __len__)
     def __init__(self):
         self.lines = []
         self.closed = False
@@ -41,6 +42,7 @@ class DumpFile:
 
 class GenDecoder:
     """The generated decode function of a PGN (contract from C01/C08: a message of that PGN or None, or an error)."""
+    ALWAYS_TRUE = True        # a Python object of this kind is truthy (no __bool__ / __len__)
     def __init__(self, pgn, st):
         self.pgn = pgn
         self.st = st
